@@ -772,6 +772,10 @@ impl<P: PageTableFrameMapping> PageTableWalker<P> {
                 return Err(PageTableCreateError::FrameAllocationFailed);
             }
         } else {
+            // Don't touch the flags of a huge page mapping: it is not a parent table entry.
+            if entry.flags().contains(PageTableFlags::HUGE_PAGE) {
+                return Err(PageTableCreateError::MappedToHugePage);
+            }
             if !insert_flags.is_empty() && !entry.flags().contains(insert_flags) {
                 entry.set_flags(entry.flags() | insert_flags);
             }
